@@ -299,7 +299,7 @@ def main(argv=None):
         evaluations=tot["evaluations"],
         distinct_nontrivial=len(digests),
         rule=mod.RULE,
-        samples=samples[:6],
+        samples=samples[:4],
         states=tot["states"],
         transitions=tot["transitions"],
         traces_validated_against_impl=tot["traces"],
